@@ -235,9 +235,10 @@ def run(ctx):
         cases.append({"kind": "random", "seed": ctx.seed * 7919 + 100000 + k, "nleaves": nl, "nested": nested, "rooted": (1, 0, -1)[k % 3],
                       "all_starts": False, "filters": ["none", "mixed", "subset"]})
     # large trees (beyond any block / chunk size an iterator implementation may use internally; seeded change C15-v1
-    # broke level-order only from the 65th node on)
+    # broke level-order only from the 65th node on).  At most 150 leaves: proj.NODE_CAP (400 node objects, the
+    # projection's guard against cyclic structures) must not be reached, or the graph form is truncated.
     rng2 = random.Random(ctx.seed + 1515)
-    for k, nl in enumerate((40, 70, 130) if ctx.quick else (40, 70, 130, 200, 260, 70, 130, 333)):
+    for k, nl in enumerate((40, 70, 130) if ctx.quick else (40, 70, 130, 150, 100, 70, 130, 150)):
         nested = build.assign(build.random_parents(rng2, nl, p_poly=0.3, p_unif=0.1), rng2, list(range(nl)), label_internal=True)
         cases.append({"kind": "random", "seed": ctx.seed * 7919 + 200000 + k, "nleaves": nl, "nested": nested, "rooted": (1, 0, -1)[k % 3],
                       "all_starts": False, "filters": ["none", "mixed"]})
